@@ -269,3 +269,48 @@ pub fn sweep_trace(world: &World, lay: u16, value: u32, idx: u64) -> Trace {
     ];
     Trace { seed: 0, run: idx, input: InputMode::plain(), records, sampled_faults: vec![], serde: vec![] }
 }
+
+/// Deterministic histories for the interpreter (Miri) probe: every family once (frac = width/2),
+/// every path that runs `unsafe` code in parity-scale-codec or in derive-generated code
+/// (`decode_into` via arrays and `Box`, in-place struct decoding, `Vec` growth), written and
+/// then read back fault-free, under every truncation and under a few bit flips.
+pub fn ub_probe_traces(world: &World) -> Vec<Trace> {
+    let mut out = Vec::new();
+    for fam in 0..10u8 {
+        let lay = match world.table.iter().position(|o| o.fam == fam && o.frac == o.w / 2) {
+            Some(i) => i as u16,
+            None => continue,
+        };
+        let o = &world.table[lay as usize];
+        let peer = world.by_width[widx(o.w)].iter().copied().find(|p| world.table[*p as usize].signed != o.signed && world.table[*p as usize].frac == 0).unwrap_or(lay);
+        let wb = (o.w / 8) as u128;
+        let distinct = (0..wb).fold(0u128, |a, i| a | ((i + 1) << (8 * i)));
+        let ones = o.mask();
+        let msb = 1u128 << (o.w - 1);
+        let rec = |shape: Shape, vals: Vec<u128>, writer: Writer, reader: Reader, r_lay: u16| Record { w_lay: lay, r_lay, shape, vals, splits: vec![], writer, reader };
+        let h1 = vec![
+            rec(Shape::Bare, vec![distinct], Writer::EncodeTo, Reader::ViaArray1, lay),
+            rec(Shape::Bare, vec![ones], Writer::Encode, Reader::ViaBox, peer),
+            rec(Shape::Arr3, vec![distinct, msb, 1], Writer::EncodeTo, Reader::Decode, lay),
+            rec(Shape::Bare, vec![msb | 1], Writer::UsingEncoded, Reader::Decode, lay),
+        ];
+        let h2 = vec![
+            rec(Shape::Rec, vec![distinct, ones], Writer::EncodeTo, Reader::Decode, lay),
+            rec(Shape::Sum, vec![msb, distinct], Writer::Encode, Reader::Decode, peer),
+            rec(Shape::Vec, vec![distinct, ones], Writer::EncodeTo, Reader::Decode, lay),
+            rec(Shape::Boxed, vec![distinct], Writer::EncodeTo, Reader::Skip, lay),
+            Record { w_lay: lay, r_lay: lay, shape: Shape::Append, vals: vec![1, distinct, ones], splits: vec![2, 1], writer: Writer::EncodeTo, reader: Reader::Decode },
+        ];
+        for (k, records) in [h1, h2].into_iter().enumerate() {
+            for io in [false, true] {
+                let input = if io {
+                    InputMode { rl: RlMode::None, native_read_byte: false, io: Some(IoPlan { chunks: vec![3, 1, 5], eintr_mask: 0b1001_0010 }) }
+                } else {
+                    InputMode::plain()
+                };
+                out.push(Trace { seed: 0, run: (fam as u64) * 4 + (k as u64) * 2 + io as u64, input, records: records.clone(), sampled_faults: vec![], serde: vec![] });
+            }
+        }
+    }
+    out
+}
